@@ -322,11 +322,27 @@ func (c *Ctx) c38Match(pk *packages.Package, reg map[string]*ast.FuncDecl) {
 			conds = append(conds, g)
 		}
 	}
-	if len(conds) != 1 || conds[0].Neg {
-		c.Undecided(R, "match:condition", w.call.Pos(), "the write is guarded by %d conditions (expected one positive `if`): cannot build the truth table", len(conds))
+	if len(conds) == 0 {
+		c.Undecided(R, "match:condition", w.call.Pos(), "the write is guarded by %d conditions (expected at least one `if`): cannot build the truth table", len(conds))
 		return
 	}
-	cond := conds[0].Cond
+	// the write happens where every guard holds: positive `if` arms as they are, earlier
+	// `if c { return }` exits and else arms negated
+	var cond ast.Expr
+	for _, g := range conds {
+		var e ast.Expr = &ast.ParenExpr{Lparen: g.Cond.Pos(), X: g.Cond, Rparen: g.Cond.End()}
+		if g.Neg {
+			e = &ast.UnaryExpr{OpPos: g.Cond.Pos(), Op: token.NOT, X: e}
+		}
+		if cond == nil {
+			cond = e
+		} else {
+			cond = &ast.BinaryExpr{X: cond, OpPos: g.Cond.Pos(), Op: token.LAND, Y: e}
+		}
+	}
+	if len(conds) == 1 && !conds[0].Neg {
+		cond = conds[0].Cond
+	}
 	var containsCall *ast.CallExpr
 	atom := func(e ast.Expr) (string, bool, bool) {
 		e = unparen(e)
@@ -370,7 +386,8 @@ func (c *Ctx) c38Match(pk *packages.Package, reg map[string]*ast.FuncDecl) {
 		}
 	}
 	needleOK := false
-	if nc, ok := unparen(containsCall.Args[1]).(*ast.CallExpr); ok {
+	// the pattern: the call itself, or a local of the handler defined once from it
+	if nc, ok := localDefs(info, fd.Body).resolve1(info, containsCall.Args[1]).(*ast.CallExpr); ok {
 		if callIs(info, nc, mx("lang/parameters"), "Parameters", "ByteAll") || callIs(info, nc, mx("lang/parameters"), "Parameters", "StringAll") {
 			needleOK = true
 		}
@@ -775,7 +792,21 @@ func (c *Ctx) c38AddElems(pk *packages.Package, reg map[string]*ast.FuncDecl) {
 				}
 				seq[tgt] += "G"
 			case *ast.ForStmt:
-				problem = "a 3-clause for loop over the parameters is not modelled (range expected)"
+				// `for k := 0; k < len(params); k++ {…}` visits the same indices as `for k := range params`
+				k := c38CountingLoopOver(info, st, params)
+				if k == nil {
+					problem = "a for loop before MarshalData is not `for k := 0; k < len(<params>); k++` over p.Parameters.StringArray() (or a range over it)"
+					break
+				}
+				tgt, why, isV := c.c38GivenBody(info, st.Body, params, k, nil)
+				if tgt == nil {
+					problem = why
+					if isV {
+						viol = why
+					}
+					break
+				}
+				seq[tgt] += "G"
 			}
 		}
 		mid, okM := x.(*ast.Ident)
@@ -858,12 +889,72 @@ func (c *Ctx) c38GivenLoop(info *types.Info, rs *ast.RangeStmt, params types.Obj
 	if id, ok := rs.Value.(*ast.Ident); ok && id.Name != "_" {
 		valObj = info.ObjectOf(id)
 	}
+	return c.c38GivenBody(info, rs.Body, params, keyObj, valObj)
+}
+
+// c38CountingLoopOver: fs is `for k := 0; k < len(params); k++ { … }` (also `len(params) > k`, `k += 1`)
+// and k is not assigned in the body; returns k.
+func c38CountingLoopOver(info *types.Info, fs *ast.ForStmt, params types.Object) types.Object {
+	if params == nil || fs.Init == nil || fs.Cond == nil || fs.Post == nil {
+		return nil
+	}
+	as, ok := fs.Init.(*ast.AssignStmt)
+	if !ok || as.Tok != token.DEFINE || len(as.Lhs) != 1 || len(as.Rhs) != 1 {
+		return nil
+	}
+	id, ok := as.Lhs[0].(*ast.Ident)
+	if !ok {
+		return nil
+	}
+	if v, ok := constInt(info, as.Rhs[0]); !ok || v != 0 {
+		return nil
+	}
+	k := info.ObjectOf(id)
+	be, ok := unparen(fs.Cond).(*ast.BinaryExpr)
+	if !ok {
+		return nil
+	}
+	x, y := be.X, be.Y
+	switch be.Op {
+	case token.LSS:
+	case token.GTR:
+		x, y = y, x
+	default:
+		return nil
+	}
+	lc, ok := isBuiltinCall(info, y, "len")
+	if !c38IsObj(info, x, k) || !ok || len(lc.Args) != 1 || !c38IsObj(info, lc.Args[0], params) {
+		return nil
+	}
+	switch p := fs.Post.(type) {
+	case *ast.IncDecStmt:
+		if p.Tok != token.INC || !c38IsObj(info, p.X, k) {
+			return nil
+		}
+	case *ast.AssignStmt:
+		if p.Tok != token.ADD_ASSIGN || len(p.Lhs) != 1 || len(p.Rhs) != 1 || !c38IsObj(info, p.Lhs[0], k) {
+			return nil
+		}
+		if v, ok := constInt(info, p.Rhs[0]); !ok || v != 1 {
+			return nil
+		}
+	default:
+		return nil
+	}
+	if c38AssignedBetween(info, fs.Body, k, fs.Body.Pos(), fs.Body.End(), nil) {
+		return nil
+	}
+	return k
+}
+
+// c38GivenBody: the body of the parameter loop (k = index variable, v = value variable; either may be nil).
+func (c *Ctx) c38GivenBody(info *types.Info, body *ast.BlockStmt, params, keyObj, valObj types.Object) (types.Object, string, bool) {
 	var tgt types.Object
 	n := 0
 	why := ""
 	isV := false
 	var convObj types.Object
-	walkStack(rs.Body, func(nd ast.Node, st []ast.Node) bool {
+	walkStack(body, func(nd ast.Node, st []ast.Node) bool {
 		if as, ok := nd.(*ast.AssignStmt); ok && len(as.Rhs) == 1 && len(as.Lhs) == 2 {
 			if call, ok := unparen(as.Rhs[0]).(*ast.CallExpr); ok && callIs(info, call, mx("lang/types"), "", "ConvertGoType") && len(call.Args) == 2 {
 				a := unparen(call.Args[0])
@@ -1111,15 +1202,60 @@ func (c *Ctx) c38PerElement(pk *packages.Package, reg map[string]*ast.FuncDecl) 
 				})
 			}
 			c.Check(aw != nil && dtOK, R, fn+":writer", t.Pos(), "%s writes through p.Stdout.WriteArray(dt) with dt = p.Stdin.GetDataType() (another type re-encodes the elements in a different array format)", fn)
+			// after the last read, every return is `return aw.Close()` unless p.HasCancelled() is known to hold
+			// there (the cancelled path gives up the output), and the function cannot run off its end otherwise
 			closeOK := false
 			if aw != nil && len(t.Body.List) > 0 {
-				if rs, ok := t.Body.List[len(t.Body.List)-1].(*ast.ReturnStmt); ok && len(rs.Results) == 1 {
-					if call, ok := unparen(rs.Results[0]).(*ast.CallExpr); ok {
-						if se, ok := call.Fun.(*ast.SelectorExpr); ok && se.Sel.Name == "Close" && c38IsObj(info, se.X, aw) {
-							closeOK = true
-						}
+				var lastRead token.Pos
+				for _, cb := range c38Callbacks(info, t, "ReadArray") {
+					if cb.call.End() > lastRead {
+						lastRead = cb.call.End()
 					}
 				}
+				nClose, nBad := 0, 0
+				walkStack(t.Body, func(n ast.Node, st []ast.Node) bool {
+					if _, ok := n.(*ast.FuncLit); ok {
+						return false
+					}
+					rs, ok := n.(*ast.ReturnStmt)
+					if !ok || rs.Pos() < lastRead {
+						return true
+					}
+					if len(rs.Results) == 1 {
+						if call, ok := unparen(rs.Results[0]).(*ast.CallExpr); ok {
+							if se, ok := call.Fun.(*ast.SelectorExpr); ok && se.Sel.Name == "Close" && c38IsObj(info, se.X, aw) {
+								nClose++
+								return true
+							}
+						}
+					}
+					// …or the failure path: `return err` where err != nil is known (the read itself failed)
+					cancelled := false
+					var retObj types.Object
+					if len(rs.Results) == 1 {
+						if id, ok := unparen(rs.Results[0]).(*ast.Ident); ok {
+							retObj = info.ObjectOf(id)
+						}
+					}
+					for _, f := range factsOf(guardsAt(info, st)) {
+						if call, ok := unparen(f.E).(*ast.CallExpr); ok && f.True && callIs(info, call, mx("lang"), "Process", "HasCancelled") {
+							cancelled = true
+						}
+						if be, ok := unparen(f.E).(*ast.BinaryExpr); ok && retObj != nil && ((be.Op == token.NEQ && f.True) || (be.Op == token.EQL && !f.True)) {
+							for _, pr := range [][2]ast.Expr{{be.X, be.Y}, {be.Y, be.X}} {
+								if tv, ok := info.Types[pr[1]]; ok && tv.IsNil() && c38IsObj(info, pr[0], retObj) {
+									cancelled = true
+								}
+							}
+						}
+					}
+					if !cancelled {
+						nBad++
+					}
+					return true
+				})
+				_, endsInReturn := t.Body.List[len(t.Body.List)-1].(*ast.ReturnStmt)
+				closeOK = nClose > 0 && nBad == 0 && endsInReturn
 			}
 			c.Check(closeOK, R, fn+":close", t.Pos(), "%s ends with `return aw.Close()` (without it buffered elements / the closing bracket are never written)", fn)
 		}
